@@ -71,6 +71,7 @@ const (
 	kpAckDelayedPastCall
 	kpBigErrorAck
 	kpAckMistyped
+	kpPreload
 	nKProbes
 )
 
@@ -83,7 +84,7 @@ var kProbeNames = []string{"unsolicited_record_skipped_inside_call", "eagain_x9_
 	"receive_non_netlink_address", "short_after_long_datagram", "send_payload_8970", "send_with_caller_pid", "porcupine_histories_checked",
 	"sendto_failed", "kernel_immutable", "receive_foreign_port_id_with_group_mask", "receive_foreign_port_id_2^31_or_more", "getstatus_result_checked_again_at_end", "receive_on_two_independent_clients_in_tasks", "forged_reply_queued_ahead_of_the_kernels", "ack_datagram_truncated", "setters_on_two_clients_in_two_tasks", "socket_close_reported_an_error", "receive_failed_with_enobufs_inside_call", "sequence_counter_started_next_to_wrap",
 	"verdict_left_unread_by_a_failed_call", "status_reply_ahead_of_its_ack", "send_payload_with_spare_capacity", "send_same_payload_slice_again",
-	"receive_datagram_whose_length_field_differs_from_its_size", "more_than_16_nowait_requests_outstanding", "ack_delayed_past_a_whole_waitforpendingacks_call", "error_ack_echoing_a_request_of_8900_bytes_or_more", "refusal_with_a_netlink_type_other_than_error"}
+	"receive_datagram_whose_length_field_differs_from_its_size", "more_than_16_nowait_requests_outstanding", "ack_delayed_past_a_whole_waitforpendingacks_call", "error_ack_echoing_a_request_of_8900_bytes_or_more", "refusal_with_a_netlink_type_other_than_error", "client_preloaded_with_300_to_70000_commands"}
 
 var kFaultNames = []string{"injected_errno", "unsolicited_records", "stale_reply", "delayed_reply", "truncated_or_padded_reply", "spoofed_datagram",
 	"recv_eintr", "recv_eagain_injected", "recv_eagain_natural", "sendto_errno", "concurrent_close_tasks", "concurrent_send_tasks"}
@@ -161,6 +162,225 @@ func (c *kctx) viol(kind, class, f string, a ...any) {
 	c.res.Add(c.prop, kind, class, fmt.Sprintf(f, a...))
 }
 
+// preload issues p.Preload ordinary commands on the client, without faults,
+// each judged by the plain rule (nil exactly when the kernel acknowledged with
+// 0; a status is what the kernel laid out; a dump is the kernel's list), and
+// then forgets the conversation: the plan's operations start on a client and a
+// kernel that have a history.
+func (c *kctx) preload() {
+	k, p := c.k, c.p
+	faults, script, sendErr, hard, closeErr := k.Faults, c.port.script, c.port.sendErrno, c.port.recvHard, c.port.closeErrno
+	k.Faults, c.port.script, c.port.sendErrno, c.port.recvHard, c.port.closeErrno = nil, nil, nil, nil, nil
+	c.res.Probes[kpPreload]++
+	bad := func(j int, what string, f string, a ...any) {
+		c.viol("long-run", what, "after %d ordinary commands on this client (command mix %d): "+f, append([]any{j, p.PreStyle}, a...)...)
+	}
+	judge := func(j int, name string, err error) bool {
+		switch {
+		case p.Scenario == 16 && name != "GetStatus":
+			// C16 is about what goes on the wire and what GetStatus hands back
+			if len(k.Ledger) != 1 {
+				bad(j, name, "%s sent %d datagrams, want exactly one", name, len(k.Ledger))
+			}
+			return false
+		case p.Scenario == 17 && name != "GetRules":
+			// C17 is about the ACK bookkeeping (judged at the end of the preload) and about returned rule data
+			return false
+		}
+		firstErr := 0
+		for _, r := range k.Ledger {
+			if r.Verdict != 0 {
+				firstErr = r.Verdict
+				break
+			}
+		}
+		ok := true
+		switch {
+		case len(k.Ledger) == 0:
+			bad(j, name, "%s sent nothing (err=%v)", name, err)
+			ok = false
+		case firstErr == 0 && err != nil:
+			bad(j, name, "%s returned %q although the kernel acknowledged every request with errno 0", name, err.Error())
+			ok = false
+		case firstErr != 0 && err == nil:
+			bad(j, name, "%s returned nil although the kernel answered with errno %d", name, firstErr)
+			ok = false
+		}
+		if k.Pending() > 0 && ok && firstErr == 0 {
+			bad(j, name, "%s left %d datagrams unread", name, k.Pending())
+			ok = false
+		}
+		return ok && firstErr == 0
+	}
+	noWait := 0
+	for j := 0; j < p.Preload; j++ {
+		if len(c.res.Violations) > 0 {
+			break
+		}
+		if p.PreStyle == 4 {
+			k.Unsolicited(1+j%3, 0)
+		}
+		step := j
+		if p.PreStyle == 0 {
+			step = 1
+		} else if p.PreStyle == 1 {
+			step = 0
+		}
+		switch {
+		case p.PreStyle == 2:
+			if err := c.client.SetRateLimit(uint32(j), libaudit.NoWait); err != nil {
+				bad(j, "SetRateLimit", "SetRateLimit(NoWait) returned %v", err)
+			}
+			noWait++
+			continue
+		case step%5 == 0:
+			err := c.client.SetBacklogLimit(uint32(j), libaudit.WaitForReply)
+			judge(j, "SetBacklogLimit", err)
+		case step%5 == 1 && p.ReplySize < 32:
+			err := c.client.SetRateLimit(uint32(j), libaudit.WaitForReply) // (this kernel's status replies are too short to decode)
+			judge(j, "SetRateLimit", err)
+		case step%5 == 1:
+			st, err := c.client.GetStatus()
+			if judge(j, "GetStatus", err) && len(k.Ledger) > 0 && st != nil {
+				if sent := k.Ledger[0].StatusSent; len(sent) >= 32 {
+					lim := len(sent)
+					if lim > kern.StatusSize {
+						lim = kern.StatusSize
+					}
+					if want, got := u32words(sent[:lim]), statusWords(st); want != got {
+						bad(j, "GetStatus", "GetStatus returned %v, the kernel laid out %v", got, want)
+					}
+				}
+			}
+		case step%5 == 2:
+			err := c.client.AddRule(ruleBytes(uint32(j % 12)))
+			judge(j, "AddRule", err)
+		case step%5 == 3:
+			rules, err := c.client.GetRules()
+			if judge(j, "GetRules", err) && len(k.Ledger) > 0 && !equalRules(rules, k.Ledger[0].RulesSent) {
+				bad(j, "GetRules", "GetRules returned %d rules %s, the kernel sent %d rules %s", len(rules), sumRules(rules), len(k.Ledger[0].RulesSent), sumRules(k.Ledger[0].RulesSent))
+			}
+		default:
+			err := c.client.DeleteRule(ruleBytes(uint32((j - 2) % 12)))
+			judge(j, "DeleteRule", err)
+		}
+		for _, d := range k.Queue {
+			d.Consumed = true
+		}
+		k.Forget()
+	}
+	if noWait > 0 && len(c.res.Violations) == 0 {
+		err := c.client.WaitForPendingACKs()
+		if err != nil {
+			bad(noWait, "WaitForPendingACKs", "WaitForPendingACKs returned %q with %d acknowledgements of errno 0 outstanding", err.Error(), noWait)
+		} else if n := k.Pending(); n > 0 {
+			bad(noWait, "WaitForPendingACKs", "WaitForPendingACKs returned nil and left %d of %d acknowledgements unread", n, noWait)
+		}
+		for _, d := range k.Queue {
+			d.Consumed = true
+		}
+		k.Forget()
+	}
+	k.Faults, c.port.script, c.port.sendErrno, c.port.recvHard, c.port.closeErrno = faults, script, sendErr, hard, closeErr
+	c.port.slot, c.port.armed, c.port.sends, c.port.recvCalls, c.port.sendFailed, c.port.hardFired = 0, false, 0, 0, 0, 0
+	c.port.naturalEagain, c.port.injEintr, c.port.injEagain = 0, 0, 0
+}
+
+// keeperNetlink is a transport of the kind an application may write: every
+// datagram gets a buffer of its own, and what the parser returned is kept.
+type keeperNetlink struct {
+	n       uint32
+	results [][]syscall.NetlinkMessage
+}
+
+func keeperDatagram(i uint32) []byte {
+	b := sendPayload(int(i)+31, 16+20+int(i%90))
+	putU32(b[0:], uint32(len(b)))
+	putU16(b[4:], uint16(1300+i%700))
+	putU32(b[8:], i)
+	return b
+}
+
+func (f *keeperNetlink) Receive(_ bool, p libaudit.NetlinkParser) ([]syscall.NetlinkMessage, error) {
+	f.n++
+	msgs, err := p(keeperDatagram(f.n))
+	f.results = append(f.results, msgs)
+	return msgs, err
+}
+func (f *keeperNetlink) Send(syscall.NetlinkMessage) (uint32, error) { return 0, nil }
+func (f *keeperNetlink) Close() error                                 { return nil }
+
+// preloadTransport gives the transport scenario a history: many sends, many
+// receives, or many datagrams parsed for a transport that keeps the results.
+func (c *kctx) preloadTransport() {
+	k, p := c.k, c.p
+	sendErr := c.port.sendErrno
+	c.port.sendErrno = nil
+	c.res.Probes[kpPreload]++
+	bad := func(j int, what, f string, a ...any) {
+		c.viol("long-run", what, "after %d earlier calls on this transport: "+f, append([]any{j}, a...)...)
+	}
+	switch p.PreStyle {
+	case 0:
+		var last uint32
+		for j := 0; j < p.Preload && len(c.res.Violations) == 0; j++ {
+			payload := sendPayload(j+5, 4+j%60)
+			seq, err := c.realNL.Send(syscall.NetlinkMessage{Header: syscall.NlMsghdr{Type: uint16(1000 + j%16), Flags: 5}, Data: payload})
+			switch {
+			case err != nil:
+				bad(j, "Send", "Send returned %v", err)
+			case j > 0 && int32(seq-last) <= 0:
+				bad(j, "Send", "Send returned sequence %d after %d", seq, last)
+			case len(k.Ledger) != 1:
+				bad(j, "Send", "one Send put %d datagrams on the wire", len(k.Ledger))
+			default:
+				w := k.Ledger[0].Wire
+				if len(w) != 16+len(payload) || getU32(w[8:]) != seq || getU32(w[0:]) != uint32(len(w)) || getU16(w[4:]) != uint16(1000+j%16) || !bytes.Equal(w[16:], payload) {
+					bad(j, "Send", "Send(payload %d bytes) returned sequence %d; the wire carries a %d-byte datagram with sequence %d, type %d", len(payload), seq, len(w), getU32(w[8:]), getU16(w[4:]))
+				}
+			}
+			last = seq
+			for _, d := range k.Queue {
+				d.Consumed = true
+			}
+			k.Forget()
+		}
+		c.sentSeqs = append(c.sentSeqs, last)
+	case 1:
+		for j := 0; j < p.Preload && len(c.res.Violations) == 0; j++ {
+			data := keeperDatagram(uint32(j + 1))
+			k.Inject(data, 0, false)
+			m, err := c.client.Receive(true)
+			switch {
+			case err != nil || m == nil:
+				bad(j, "Receive", "Receive failed (%v) on a %d-byte datagram from the kernel", err, len(data))
+			case int(m.Type) != int(getU16(data[4:])) || !bytes.Equal(m.Data, data[16:]):
+				bad(j, "Receive", "Receive returned type %d and %d payload bytes for a datagram of type %d with %d payload bytes (or other bytes)", m.Type, len(m.Data), getU16(data[4:]), len(data)-16)
+			}
+			k.Forget()
+		}
+	default:
+		f := &keeperNetlink{}
+		cl := &libaudit.AuditClient{Netlink: f}
+		for j := 0; j < p.Preload && len(c.res.Violations) == 0; j++ {
+			want := keeperDatagram(uint32(j + 1))
+			m, err := cl.Receive(true)
+			if err != nil || m == nil || int(m.Type) != int(getU16(want[4:])) || !bytes.Equal(m.Data, want[16:]) {
+				bad(j, "parser", "the audit parser's answer for a %d-byte datagram is wrong (err=%v)", len(want), err)
+			}
+		}
+		for i, msgs := range f.results {
+			want := keeperDatagram(uint32(i + 1))
+			if len(msgs) != 1 || msgs[0].Header.Type != getU16(want[4:]) || msgs[0].Header.Seq != uint32(i+1) || !bytes.Equal(msgs[0].Data, want[16:]) {
+				bad(len(f.results), "parser", "what the audit parser returned for datagram %d (kept by the transport, which gave every datagram a buffer of its own) no longer describes that datagram", i+1)
+				break
+			}
+		}
+	}
+	c.port.sendErrno = sendErr
+	c.port.sends, c.port.recvCalls, c.port.sendFailed = 0, 0, 0
+}
+
 func propOfScenario(s int) string { return "C" + fmt.Sprintf("%02d", s) }
 
 var clientHist = core.NewHist(4096)
@@ -218,6 +438,12 @@ func ExecKPlan(p *KPlan, trace bool) *core.Result {
 		if libaudit.AuditGet != kern.AuditGet || libaudit.AuditSet != kern.AuditSet {
 			c.viol("constant", "AuditGet/AuditSet", "AuditGet=%d AuditSet=%d, UAPI says %d and %d", libaudit.AuditGet, libaudit.AuditSet, kern.AuditGet, kern.AuditSet)
 		}
+	}
+	if p.Preload > 0 && p.Scenario != 18 {
+		c.preload()
+	}
+	if p.Preload > 0 && p.Scenario == 18 && c.realNL != nil {
+		c.preloadTransport()
 	}
 	for i, op := range p.Ops {
 		c.execOp(i, op)
